@@ -1112,40 +1112,66 @@ pub fn gen_prec(t: &mut Tape) -> GSpec {
         levels.push(pool_all[start]);
         start += 1 + t.below(3);
     }
-    let ops = [1usize, 2, 3, 4, 7];
+    let ops = [1usize, 2, 3, 4];
     let mut e = NtSpec { name: "E".into(), public: !wrapper, inline: false, ty: Some(Ty::Str), alts: vec![], cfg: vec![], params: vec![] };
     let n_alts = 2 + t.below(5);
     let atom_at = t.below(n_alts);
     let me = SymKind::N(e_idx);
+    let mut cur_lvl = 0u32;
     for ai in 0..n_alts {
-        let op = SymKind::T(ops[(ai + t.below(2)) % ops.len()]);
-        let op2 = SymKind::T(ops[(ai + 2) % ops.len()]);
-        let syms = if ai == atom_at {
-            if t.chance(150) {
-                vec![SymKind::N(t_idx)]
-            } else {
-                vec![SymKind::T(0)]
+        // mostly one operator token per alternative (reusing one makes most grammars ambiguous)
+        let op = SymKind::T(ops[(ai + if t.chance(40) { 1 } else { 0 }) % ops.len()]);
+        let op2 = SymKind::T(7);
+        // 0 atom, 1 binary, 2 prefix, 3 postfix, 4 ternary
+        let mut kind = if ai == atom_at { 0 } else { [1usize, 2, 3, 4, 0][t.weighted(&[90, 34, 30, 24, 5])] };
+        if levels.len() == 1 && (kind == 1 || kind == 4) && !t.chance(30) {
+            // a binary operator on the only (= lowest) level cannot carry an
+            // associativity and is ambiguous; keep a few for the reject path
+            kind = 2;
+        }
+        let syms = match kind {
+            0 => {
+                if t.chance(150) {
+                    vec![SymKind::N(t_idx)]
+                } else {
+                    vec![SymKind::T(0)]
+                }
             }
-        } else {
-            match t.weighted(&[90, 30, 30, 22, 16]) {
-                0 => vec![me.clone(), op, me.clone()],
-                1 => vec![op, me.clone()],
-                2 => vec![me.clone(), op],
-                3 => vec![me.clone(), op, me.clone(), op2, me.clone()],
-                _ => vec![SymKind::T(0)],
-            }
+            1 => vec![me.clone(), op, me.clone()],
+            2 => vec![op, me.clone()],
+            3 => vec![me.clone(), op],
+            _ => vec![me.clone(), op, me.clone(), op2, me.clone()],
         };
         let mut alt = user(syms);
-        let lvl = if ai == atom_at && t.chance(200) { levels[0] } else { levels[t.below(levels.len())] };
-        if ai == 0 || t.chance(190) {
+        let lvl = if kind == 0 && t.chance(220) {
+            levels[0]
+        } else if (kind == 1 || kind == 4) && levels.len() > 1 && !t.chance(24) {
+            levels[1 + t.below(levels.len() - 1)]
+        } else {
+            levels[t.below(levels.len())]
+        };
+        // `precedence` may be omitted when the previous alternative has the wanted level
+        let prev_lvl = e.alts.last().map(|_: &AltSpec| cur_lvl);
+        if ai == 0 || prev_lvl != Some(lvl) || t.chance(150) {
             alt.prec = Some(lvl);
         }
-        alt.assoc = match t.weighted(&[110, 50, 50, 24, 22]) {
-            1 => Some(Assoc::Left),
-            2 => Some(Assoc::Right),
-            3 => Some(Assoc::None),
-            4 => Some(Assoc::All),
-            _ => None,
+        cur_lvl = lvl;
+        alt.assoc = if kind == 1 || kind == 4 {
+            match t.weighted(&[12, 90, 80, 34, 10]) {
+                1 => Some(Assoc::Left),
+                2 => Some(Assoc::Right),
+                3 => Some(Assoc::None),
+                4 => Some(Assoc::All),
+                _ => None,
+            }
+        } else {
+            match t.weighted(&[200, 14, 14, 10, 14]) {
+                1 => Some(Assoc::Left),
+                2 => Some(Assoc::Right),
+                3 => Some(Assoc::None),
+                4 => Some(Assoc::All),
+                _ => None,
+            }
         };
         e.alts.push(alt);
     }
@@ -1163,19 +1189,13 @@ pub fn gen_prec(t: &mut Tape) -> GSpec {
         eff.push((lvl, assoc));
     }
     let min_lvl = eff.iter().map(|x| x.0).min().unwrap();
-    // fix in order, re-deriving inheritance as we go
-    let mut last = (0u32, Assoc::All);
-    for a in e.alts.iter_mut() {
-        let (lvl, base) = match a.prec {
-            Some(l) => (l, Assoc::All),
-            None => last,
-        };
-        let mut assoc = a.assoc.unwrap_or(base);
-        if lvl == min_lvl && assoc != Assoc::All {
-            a.assoc = Some(Assoc::All);
-            assoc = Assoc::All;
+    // no associativity attribute at all on the lowest level (prevalidate
+    // rejects any, even `all`); levels are inherited, so an alternative's
+    // effective level does not depend on associativity attributes
+    for (a, (lvl, _)) in e.alts.iter_mut().zip(eff.iter()) {
+        if *lvl == min_lvl {
+            a.assoc = None;
         }
-        last = (lvl, assoc);
     }
     let tnt = NtSpec {
         name: "T".into(),
@@ -1233,11 +1253,32 @@ const LT_POOL: &[&str] = &["cx", "__a", "a", "ast", "__input", "__1"];
 pub fn rename_variant(spec: &GSpec, t: &mut Tape) -> (GSpec, Vec<String>) {
     let mut s = spec.clone();
     let mut new_names: Vec<String> = vec![];
-    let mut free: Vec<&str> = NT_POOL.to_vec();
+    let mut free: Vec<String> = NT_POOL.iter().map(|x| x.to_string()).collect();
+    // names LALRPOP derives for precedence tiers: `<Name><level>`
+    let mut derived: Vec<String> = vec![];
+    for nt in &spec.nts {
+        for a in &nt.alts {
+            if let Some(l) = a.prec {
+                let d = format!("{}{}", nt.name, l);
+                if !derived.contains(&d) {
+                    derived.push(d);
+                }
+            }
+        }
+    }
     for i in 0..s.nts.len() {
-        if !free.is_empty() && t.chance(200) {
+        let annotated = s.nts[i].alts.iter().any(|a| a.prec.is_some());
+        if annotated {
+            // keep the annotated nonterminal's name: the derived names refer to it
+            continue;
+        }
+        if !derived.is_empty() && t.chance(190) {
+            let k = t.below(derived.len());
+            s.nts[i].name = derived.remove(k);
+            new_names.push(s.nts[i].name.clone());
+        } else if !free.is_empty() && t.chance(200) {
             let k = t.below(free.len());
-            s.nts[i].name = free.remove(k).to_string();
+            s.nts[i].name = free.remove(k);
             new_names.push(s.nts[i].name.clone());
         }
         // macro parameters: X -> PX0 / __p / __0x (must stay distinct from nonterminal names)
